@@ -15,6 +15,7 @@ import (
 	"github.com/q191201771/lal/pkg/logic"
 	"github.com/q191201771/lal/pkg/remux"
 	"github.com/q191201771/lal/pkg/rtmp"
+	"github.com/q191201771/lal/pkg/rtprtcp"
 	"github.com/q191201771/lal/pkg/rtsp"
 	"github.com/q191201771/lal/pkg/sdp"
 
@@ -118,14 +119,42 @@ func FuzzRtspWebsocket(f *testing.F) {
 	})
 }
 
-// FuzzSdp: the SDP parser and what an RTSP publisher session builds from its result (unpackers, RR producers).
+type fuzzRtspObserver struct{ rm *remux.AvPacket2RtmpRemuxer }
+
+func (o fuzzRtspObserver) OnSdp(sdpCtx sdp.LogicContext)    { o.rm.OnSdp(sdpCtx) }
+func (o fuzzRtspObserver) OnRtpPacket(pkt rtprtcp.RtpPacket) {}
+func (o fuzzRtspObserver) OnAvPacket(pkt base.AvPacket)      { o.rm.OnAvPacket(pkt) }
+
+type nopInterleavedWriter struct{}
+
+func (nopInterleavedWriter) WriteInterleavedPacket(packet []byte, channel int) error { return nil }
+
+// FuzzSdp: the SDP parser, what an RTSP publisher session builds from an accepted description (unpackers, RR
+// producers, the group's rtsp->rtmp remuxer with its sequence headers) and then RTP / RTCP packets ([len16 packet]*,
+// odd index = RTCP) through that session: the chain "SDP parameter -> unpacker state -> packet".
 func FuzzSdp(f *testing.F) {
+	frames := func(ps ...[]byte) []byte {
+		var out []byte
+		for _, p := range ps {
+			out = append(append(out, byte(len(p)>>8), byte(len(p))), p...)
+		}
+		return out
+	}
+	rtp := func(pt int, seq uint16, payload string) []byte {
+		return RtpSpec{Ver: 2, PT: pt, Seq: seq, TS: 3000 * uint32(seq), SSRC: 7, CutTo: -1, Payload: Blob{Hex: payload}}.Bytes()
+	}
+	sr := RtcpSpec{Type: 200, SSRC: 7, Len: 28}.Bytes()
 	f.Add((&Sdp{DropLine: -1, DupLine: -1, Tracks: []SdpTrack{{Media: "video", PT: 96, Enc: "H264", Clock: 90000, Fmtp: "packetization-mode=1; sprop-parameter-sets=Z0LAHg==,aM48gA==", Control: "streamid=0"},
-		{Media: "audio", PT: 97, Enc: "MPEG4-GENERIC", Clock: 44100, Chan: 2, Fmtp: "mode=AAC-hbr; config=1210", Control: "streamid=1"}}}).Bytes())
+		{Media: "audio", PT: 97, Enc: "MPEG4-GENERIC", Clock: 44100, Chan: 2, Fmtp: "mode=AAC-hbr; config=1210", Control: "streamid=1"}}}).Bytes(),
+		frames(rtp(96, 1, "6588840021"), sr, rtp(97, 1, "002000100010aabbccdd"), sr, rtp(96, 2, "7c85888400"), sr, rtp(96, 3, "7c45ccdd")))
 	f.Add((&Sdp{DropLine: -1, DupLine: -1, Tracks: []SdpTrack{{Media: "video", PT: 98, Enc: "H265", Clock: 90000, Fmtp: "sprop-vps=QAEMAf//AWAAAAMAkAAAAwAAAwA/ugJA; sprop-sps=QgEBAWAAAAMAkAAAAwAAAwA/oAUCAXHy5bpKTC8BAQAAAwABAAADAA8I; sprop-pps=RAHBcrRiQA==", Control: "streamid=0"},
-		{Media: "audio", PT: 8, Enc: "PCMA", Clock: 8000, Chan: 1, Control: "streamid=1"}}}).Bytes())
-	f.Fuzz(func(t *testing.T, data []byte) {
-		if len(data) > 1<<16 {
+		{Media: "audio", PT: 8, Enc: "PCMA", Clock: 8000, Chan: 1, Control: "streamid=1"}}}).Bytes(),
+		frames(rtp(98, 1, "2601af08"), sr, rtp(8, 1, "d5d5d5d5"), sr, rtp(98, 2, "620193aabb"), sr, rtp(98, 3, "620153dd")))
+	f.Add((&Sdp{DropLine: -1, DupLine: -1, Tracks: []SdpTrack{{Media: "audio", PT: 97, Enc: "mpeg4-generic", Clock: 0, Chan: 2, Fmtp: "mode=AAC-lbr;sizelength=6;indexlength=2; config=f910", Control: "a"},
+		{Media: "video", PT: 97, Enc: "H264", Clock: 1, Fmtp: "sprop-parameter-sets=Zw==,aA==", Control: "v"}}}).Bytes(),
+		frames(rtp(97, 1, "00100020aabbccdd"), sr))
+	f.Fuzz(func(t *testing.T, data []byte, pkts []byte) {
+		if len(data) > 1<<16 || len(pkts) > 1<<15 {
 			return
 		}
 		v := pbt.Guard(func() *pbt.Violation {
@@ -133,11 +162,26 @@ func FuzzSdp(f *testing.F) {
 			if err != nil {
 				return nil
 			}
-			// what handleAnnounce does with an accepted SDP
-			s := rtsp.NewBaseInSession(0, nil)
+			// what handleAnnounce + Group.AddRtspPubSession do with an accepted SDP
+			rm := remux.NewAvPacket2RtmpRemuxer().WithOnRtmpMsg(func(msg base.RtmpMsg) {})
+			s := rtsp.NewBaseInSessionWithObserver(base.SessionTypeRtspPub, nopInterleavedWriter{}, fuzzRtspObserver{rm: rm})
 			s.InitWithSdp(ctx)
 			_ = ctx.IsAudioUri("rtsp://h/a/streamid=0")
 			_ = ctx.MakeVideoSetupUri("rtsp://h/a")
+			_ = s.SetupWithChannel("rtsp://h/a/streamid=0", 0, 1)
+			for i := 0; len(pkts) >= 2; i++ {
+				n := int(pkts[0])<<8 | int(pkts[1])
+				pkts = pkts[2:]
+				if n > len(pkts) {
+					n = len(pkts)
+				}
+				ch := 0
+				if i%2 == 1 {
+					ch = 1
+				}
+				s.HandleInterleavedPacket(pkts[:n], ch)
+				pkts = pkts[n:]
+			}
 			return nil
 		})
 		fuzzFail(t, v)
